@@ -369,3 +369,56 @@ pub(crate) unsafe fn other_publishes_at_step(cell: *mut *mut u8) {
         other_reader_publishes(cell)
     }
 }
+
+// ---- C13 U-owned-from-touched -------------------------------------------------------------------
+
+/// Cut of the decoder behind `LazyValue::as_str`: `from_slice_unchecked::<String>(raw)` -> "x".
+fn cut_from_slice_unchecked_x<'a, T>(_json: &'a [u8]) -> crate::Result<T>
+where
+    T: serde::de::Deserialize<'a>,
+{
+    let s = core::mem::ManuallyDrop::new(String::from("x"));
+    Ok(unsafe { core::mem::transmute_copy::<core::mem::ManuallyDrop<String>, T>(&s) })
+}
+
+/// C13 U-owned-from-touched: converting a borrowed lazy string whose text has escapes into an
+/// owned value gives the same result whether or not `as_str()` decoded (and cached) it before:
+/// the owned value is still the unparsed raw text, byte for byte, with an empty cache - so it
+/// serializes back to its source text verbatim (a re-escaped decoding would not: `\u0078`).
+#[kani::proof]
+#[kani::unwind(10)]
+#[kani::stub(crate::serde::de::from_slice_unchecked, cut_from_slice_unchecked_x)]
+fn u_owned_from_lazy_after_as_str() {
+    unsafe { INTERFERE_KIND = 0 };
+    let raw: &'static [u8] = b"\"\\u0078\"";
+    let lv = LazyValue::new(JsonSlice::Raw(raw), HasEsc::Possible);
+    let touch: bool = kani::any();
+    let cloned: bool = kani::any();
+    let lv = if touch {
+        assert!(lv.as_str().is_some());
+        if cloned {
+            // a clone shares the cached decoding
+            let c = lv.clone();
+            core::mem::forget(lv);
+            c
+        } else {
+            lv
+        }
+    } else {
+        lv
+    };
+    let o = OwnedLazyValue::from(lv);
+    match &o.0 {
+        LazyPacked::Raw(r) => {
+            let b = r.raw.as_bytes();
+            assert_eq!(b.len(), raw.len());
+            let i: usize = kani::any();
+            kani::assume(i < raw.len());
+            assert_eq!(b[i], raw[i]);
+        }
+        _ => panic!("an escaped string converted to an owned lazy value is no longer its raw text"),
+    }
+    kani::cover!(touch && cloned);
+    kani::cover!(!touch);
+    core::mem::forget(o);
+}
